@@ -38,6 +38,8 @@ fn main() {
             // the environment refuses the close datagram of a disconnect
             NCfg { send_faults: true, addrs: 2, disconnects: 2, remote_sends: 0, net_sends: 1, advances: 0, ..base.clone() },
             NCfg { send_faults: true, defer: true, addrs: 2, disconnects: 1, remote_sends: 0, net_sends: 0, advances: 0, ..base.clone() },
+            // the environment refuses one peer's datagram in the middle of a tick
+            NCfg { send_faults: true, addrs: 2, disconnects: 0, remote_sends: 0, net_sends: 1, advances: 2, ..base.clone() },
             // the peer id counter comes round onto live peers
             NCfg { wraps: 1, addrs: 3, remote_sends: 0, net_sends: 0, advances: 0, disconnects: 1, ..base.clone() },
             NCfg { accepting: false, wraps: 1, addrs: 3, net_connects: 3, remote_sends: 0, net_sends: 0, advances: 0, ..base.clone() },
@@ -53,6 +55,7 @@ fn main() {
             NCfg { defer: true, addrs: 3, remote_sends: 0, net_sends: 1, advances: 2, ..base.clone() },
             NCfg { send_faults: true, addrs: 3, disconnects: 2, remote_sends: 0, net_sends: 1, advances: 1, ..base.clone() },
             NCfg { wraps: 2, addrs: 4, remote_sends: 0, net_sends: 0, advances: 0, disconnects: 1, ..base.clone() },
+            NCfg { send_faults: true, addrs: 3, disconnects: 0, remote_sends: 0, net_sends: 1, advances: 2, ..base.clone() },
         ],
     };
     let mut outcomes = Vec::new();
@@ -70,7 +73,7 @@ fn main() {
     run.assume("a connection request is decided (accept / reject / ignore) either at once on the Connect event or, in the defer configurations, at any later step while the peer is still unconnected; a retransmitted request that reaches an undecided peer makes its connection answer by itself (the reference connection does the same) and the decision is then moot");
     run.assume("connect requests from unknown addresses are the two forms real clients send (with and without the DDNet token extension)");
     run.finish(
-        "explicit-state exploration (stateright; breadth-first at the quick tier, depth-first at the thorough tier) of one real Net + per-address real remote connections + per-address reference connections; after every step events (peer ids mapped to addresses), outgoing datagrams with destination, needs_tick and the complete per-peer state must equal the references; peer ids must be distinct, also after the 32-bit peer id counter has come round onto live peers (CounterWrap)",
+        "explicit-state exploration (stateright; breadth-first at the quick tier, depth-first at the thorough tier) of one real Net + per-address real remote connections + per-address reference connections; after every step events (peer ids mapped to addresses), outgoing datagrams with destination, needs_tick and the complete per-peer state must equal the references; a tick during which the environment refuses one peer's datagram reports the error and serves every other peer as usual; peer ids must be distinct, also after the 32-bit peer id counter has come round onto live peers (CounterWrap)",
         true,
     );
 }
